@@ -1,5 +1,6 @@
 import RainModel.Lemmas.LoopWeak
 import RainModel.Lemmas.LoopPersist
+import RainModel.Lemmas.LoopWInvDec
 /-!
 C05 — crash-consistent resume, loop level (M-LOOP).  `persisted` is the bitfield last written to the
 resume database (on stop, on completion, after verification, by the periodic writer `Op.persist`).
@@ -33,8 +34,8 @@ open Rain.Loop
 /-- **persisted_behind.** One event (any but an external change of the files) preserves: the resume
 bitfield ⊆ pieces verified on disk (together with the in-memory bitfield ⊆ the same). -/
 theorem persisted_behind (s : St) (p : Parked) (kn : Nat → Bool) (op : Op) (hop : op.isMutate = false)
-    (h : Sound s) : PersistedSound (step s p kn op).1.st :=
-  (step_sound s p kn op hop h).pers
+    (h : Sound s) (hw : WrOK s) : PersistedSound (step s p kn op).1.st :=
+  (step_sound s p kn op hop h hw).pers
 
 /-- What a restart would take as its bitfield: the resume bitfield if every data file is present
 (`handleAllocationDone` trusts it only when `!HasMissing`), nothing otherwise. -/
@@ -45,10 +46,11 @@ def restartTrusts (s : St) : Option (List Bool) :=
 /-- **crash_safe.** For every history from a freshly added torrent (any events but external file changes,
 any choices of the implementation) and every crash instant `n`: a piece the restart would treat as
 downloaded has its verified bytes on disk at that instant. -/
-theorem crash_safe (s0 : St) (h0 : InitLike s0) (evs : List Ev) (hop : ∀ e ∈ evs, e.op.isMutate = false)
+theorem crash_safe (s0 : St) (h0 : InitLike s0) (hw : NoWritten s0) (evs : List Ev)
+    (hop : ∀ e ∈ evs, e.op.isMutate = false)
     (n i : Nat) (hi : bitOf (restartTrusts (drun (s0, none) (evs.take n)).1) i = true) :
     (drun (s0, none) (evs.take n)).1.diskOKi i = true := by
-  have h := drun_sound (evs.take n) (s0, none) (fun e he => hop e (List.mem_of_mem_take he)) h0.sound
+  have h := drun_sound (evs.take n) (s0, none) (fun e he => hop e (List.mem_of_mem_take he)) h0.sound (h0.wrOK hw)
   unfold restartTrusts at hi
   split at hi
   · exact h.pers i hi
@@ -68,6 +70,82 @@ theorem missing_forgets (m : M) (b : List Bool) (hb : m.1.bf = some b) :
   unfold hadForget
   simp [hb]
 
+/-- **failed_allocation_forgets** (fix for finding C05-F2).  An allocation whose `Open` fails part-way
+(`allocFailing`: `failOpen` with `failAt` inside the data files) after it has re-created a file that was missing
+(`allocFailMissing`): the in-memory bitfield is gone afterwards, and with it the resume record — it is `none` if
+there was a bitfield to forget, and in any case (the record being bitwise below the bitfield, `PBehind`, as it is
+along every history without a verify command) it claims no piece.  So no bit — in memory or on record — survives
+the re-creation of a file, although the torrent stops with the allocation error before any result is handled. -/
+theorem failed_allocation_forgets (m : M) (hf : allocFailing m.1 = true) (hm : allocFailMissing m.1 = true) :
+    (allocatorRun m).1.bf = none ∧
+    (m.1.bf.isSome = true → (allocatorRun m).1.persisted = none) ∧
+    (PBehind m.1 → ∀ i, bitOf (allocatorRun m).1.persisted i = false) := by
+  have hbf : (allocatorRun m).1.bf = none := by
+    rw [allocatorRun_eq, if_pos hf]
+    unfold allocFail
+    simp only [onSt_fst, hm]
+    have hx : (hadForget (allocFailOpen m) true).1.bf = none := by
+      unfold hadForget
+      simp only [onSt_fst, Bool.true_and]
+      split
+      · rfl
+      · next hn => simpa using hn
+    rcases stop_bf (hadForget (allocFailOpen m) true).1 true with h | h
+    · rw [h, hx]
+    · exact h
+  refine ⟨hbf, fun hs => ?_, fun hpb i => ?_⟩
+  · rw [allocatorRun_eq, if_pos hf]
+    unfold allocFail
+    simp only [onSt_fst, hm]
+    have hx : (hadForget (allocFailOpen m) true).1.persisted = none ∧ (hadForget (allocFailOpen m) true).1.bf = none := by
+      unfold hadForget
+      simp only [onSt_fst, Bool.true_and]
+      rw [if_pos (by simpa using hs)]
+      exact ⟨rfl, rfl⟩
+    rcases stop_persisted (hadForget (allocFailOpen m) true).1 true with h | h | h
+    · rw [h, hx.1]
+    · rw [h, hx.2]
+    · exact h
+  · have := (allocatorRun_pb m hpb).sub i
+    rw [hbf] at this
+    cases hb : bitOf (allocatorRun m).1.persisted i
+    · rfl
+    · exact absurd (this hb) (by simp)
+
+/-- The same seen from the storage: what the failing allocation did before it failed — the data files before
+number `failAt` exist afterwards (they were opened, created if missing, and closed again). -/
+theorem failed_allocation_creates (m : M) (hf : allocFailing m.1 = true) (f : Nat)
+    (hfm : f ∈ (allocData m.1).take m.1.failAt) : (allocatorRun m).1.fileExists.getD f false = true := by
+  rw [allocatorRun_eq, if_pos hf]
+  unfold allocFail
+  simp only [onSt_fst]
+  have hlt : f < m.1.cfg.flens.length := by
+    have := List.mem_of_mem_take hfm
+    unfold allocData at this
+    simpa using (List.mem_filter.1 this).1
+  have h1 : (hadForget (allocFailOpen m) (allocFailMissing m.1)).1.fileExists.getD f false = true := by
+    simp only [hadForget_fileExists, allocFailOpen, onSt_fst]
+    rw [getD_map_range]
+    simp [hlt, hfm]
+  -- `stop` never removes a file
+  rcases stop_fe (hadForget (allocFailOpen m) (allocFailMissing m.1)).1 true with h | ⟨_, _⟩
+  · rw [stop_eq]
+    split
+    · exact h1
+    · simp only [stopRun, stopFin_fileExists, stopVer_fileExists]
+      unfold stopAlloc
+      split
+      · next ha => simp [allocFailOpen] at ha
+      · simpa using h1
+  · rw [stop_eq]
+    split
+    · exact h1
+    · simp only [stopRun, stopFin_fileExists, stopVer_fileExists]
+      unfold stopAlloc
+      split
+      · next ha => simp [allocFailOpen] at ha
+      · simpa using h1
+
 /-- **persisted_below_bitfield.** Every event except the verify command in either of its two forms
 (`Op.isVerify`: `Op.verify`, and `Op.verifyHeld`, the same command given while the harness leaves the storage
 gates alone) — external file changes and both stop commands included —, in every state without a pending verify: the resume bitfield stays bitwise below the in-memory bitfield —
@@ -80,10 +158,10 @@ theorem persisted_below_bitfield (s : St) (p : Parked) (kn : Nat → Bool) (op :
 files deleted or restored behind the client's back (no corruption of bytes, no verify command), any choices
 of the implementation adopted: a bit of the resume bitfield whose piece is not fine on disk is bad only
 inside files that are currently missing. -/
-theorem persisted_weakly_sound (s0 : St) (h0 : InitLike s0) (hdv : s0.doVerify = false) (evs : List Ev)
+theorem persisted_weakly_sound (s0 : St) (h0 : InitLike s0) (hw : NoWritten s0) (hdv : s0.doVerify = false) (evs : List Ev)
     (hop : ∀ e ∈ evs, e.op.isCorrupt = false) (hv : ∀ e ∈ evs, e.op.isVerify = false) :
     WSP (drun (s0, none) evs).1 :=
-  WSP.of_pb (drun_wsound evs (s0, none) hop h0.wsound).ws
+  WSP.of_pb (drun_wsound evs (s0, none) hop h0.wsound (h0.wrOK hw)).ws
     (drun_pb evs (s0, none) hv ⟨hdv, fun i hi => by rw [h0.persisted] at hi; cases hi⟩)
 
 /-- `restartTrusts` looks at the record only when every data file is present. -/
@@ -101,13 +179,14 @@ theorem restartTrusts_files (s : St) (i : Nat) (hi : bitOf (restartTrusts s) i =
 /-- **crash_safe_with_mutations.** `crash_safe` for histories in which files are also deleted and restored
 behind the stopped client's back (no verify command): at every crash instant, a piece the restart would
 treat as downloaded — it trusts the record only when no file is missing — has its verified bytes on disk. -/
-theorem crash_safe_with_mutations (s0 : St) (h0 : InitLike s0) (hdv : s0.doVerify = false) (evs : List Ev)
+theorem crash_safe_with_mutations (s0 : St) (h0 : InitLike s0) (hwr : NoWritten s0) (hdv : s0.doVerify = false)
+    (evs : List Ev)
     (hop : ∀ e ∈ evs, e.op.isCorrupt = false) (hv : ∀ e ∈ evs, e.op.isVerify = false)
     (n i : Nat) (hi : bitOf (restartTrusts (drun (s0, none) (evs.take n)).1) i = true) :
     (drun (s0, none) (evs.take n)).1.diskOKi i = true := by
-  have hw := persisted_weakly_sound s0 h0 hdv (evs.take n) (fun e he => hop e (List.mem_of_mem_take he))
+  have hw := persisted_weakly_sound s0 h0 hwr hdv (evs.take n) (fun e he => hop e (List.mem_of_mem_take he))
     (fun e he => hv e (List.mem_of_mem_take he))
-  have hws := drun_wsound (evs.take n) (s0, none) (fun e he => hop e (List.mem_of_mem_take he)) h0.wsound
+  have hws := drun_wsound (evs.take n) (s0, none) (fun e he => hop e (List.mem_of_mem_take he)) h0.wsound (h0.wrOK hwr)
   have hpb := drun_pb (evs.take n) (s0, none) (fun e he => hv e (List.mem_of_mem_take he))
     ⟨hdv, fun i hi => by rw [h0.persisted] at hi; cases hi⟩
   obtain ⟨hfe, hp⟩ := restartTrusts_files _ i hi
@@ -184,6 +263,36 @@ private def evsB : List Ev := [
   ⟨.gate .failOpen false, kn [1], [], []⟩,
   ⟨.gate .read true, kn [1], [], []⟩,
   ⟨.waitstop, kn [1], [], []⟩]
+
+/-! Non-vacuity of `failed_allocation_forgets`, and `crash_safe_with_mutations` on a history with `gate failOpenAt`
+(finding C05-F2): both pieces downloaded, stopped, file 0 deleted; the storage fails to open file 1; `start`: the
+allocator re-creates file 0, fails on file 1, the torrent stops with the error.  Before the fix the bitfield and
+the record `[true, true]` survived, every file existed again, and the next start trusted them; now both are gone. -/
+private def evsF : List Ev := evsA.take 8 ++ [⟨.gate (.failOpenAt 1) true, kn [1], [], []⟩, ⟨.start, kn [1], [], []⟩]
+example : (drun (s2, none) (evsF.take 9)).1.persisted = some [true, true] ∧
+    (drun (s2, none) (evsF.take 9)).1.fileExists = [false, true] ∧
+    (drun (s2, none) evsF).1.status = .stopped ∧ (drun (s2, none) evsF).1.lastErr = true ∧
+    (drun (s2, none) evsF).1.fileExists = [true, true] ∧ (drun (s2, none) evsF).1.diskOK = [false, true] ∧
+    (drun (s2, none) evsF).1.bf = none ∧ (drun (s2, none) evsF).1.persisted = none ∧
+    restartTrusts (drun (s2, none) evsF).1 = none ∧
+    (drun (s2, none) evsF).1.sto = ["open:a:16384:new", "openfail:b", "close:a"] ∧
+    (∀ e ∈ evsF, e.op.isCorrupt = false) ∧ (∀ e ∈ evsF, e.op.isVerify = false) := by decide
+/-- … and the start after the storage has recovered verifies file 1 and downloads piece 0 again. -/
+example : (drun (s2, none) (evsF ++ [⟨.gate .failOpen false, kn [1], [], []⟩, ⟨.start, kn [1], [], []⟩])).1.status = .downloading ∧
+    (drun (s2, none) (evsF ++ [⟨.gate .failOpen false, kn [1], [], []⟩, ⟨.start, kn [1], [], []⟩])).1.bf = some [false, true] := by
+  decide
+
+/-- `crash_safe` applies to histories with `gate failOpenAt` (it quantifies over every op but `mutate`): a
+completed download, a stop, `Open` failing at file 1, a start that fails, a start that succeeds. -/
+private def evsG : List Ev := evsA.take 7 ++ [⟨.gate (.failOpenAt 1) true, kn [1], [], []⟩,
+  ⟨.start, kn [1], [], []⟩, ⟨.gate .failOpen false, kn [1], [], []⟩, ⟨.start, kn [1], [], []⟩]
+example (n i : Nat) (h : bitOf (restartTrusts (drun (s2, none) (evsG.take n)).1) i = true) :
+    (drun (s2, none) (evsG.take n)).1.diskOKi i = true :=
+  crash_safe s2 ⟨cfgWF_of_check _ (by decide), badWF_dataSects _ rfl, rfl, rfl, rfl, rfl, rfl, rfl, rfl, rfl, rfl, rfl, rfl,
+    rfl, rfl, rfl, rfl⟩ (noWritten_of_none rfl) evsG (by decide) n i h
+example : (drun (s2, none) (evsG.take 9)).1.persisted = some [true, true] ∧
+    (drun (s2, none) (evsG.take 9)).1.lastErr = true ∧ (drun (s2, none) (evsG.take 9)).1.status = .stopped ∧
+    (drun (s2, none) evsG).1.status = .seeding := by decide
 
 /-- `Op.verifyHeld` has to be excluded like `Op.verify` (it is the same handler): from the freshly added
 torrent, which satisfies `PBehind`, with the open gate held it leaves the verification pending. -/
